@@ -46,7 +46,8 @@ class Taint:
         self.opaque = opaque_calls
         # aliases: r = &mut q / &q  (r and q denote the same storage)
         self.alias = {}
-        live = b.live_blocks()
+        b.succ
+        live = b._rawlive        # including assignment-only blocks that jump threading steps over
         self.stmts = []
         for i, bl in enumerate(b.blocks):
             if bl['cleanup'] or i not in live:
